@@ -385,3 +385,14 @@ package http1
 //@   ghostset-at-entry ctxReset = false
 //@   ghostset after RequestContext.Reset: ctxReset = (arg0 == ctx)
 //@   assert before Put: ctxReset && arg1 == ctx
+
+// C10 (closing the idle list): the connections to close are copied out of the idle list while the lock is held - the
+// closing loop runs without the lock and connections released meanwhile are appended to the live list, which must
+// not share an array with the copy.
+//@ func HostClient.CloseIdleConnections(c)
+//@   props C10
+//@   abstract
+//@   noinline
+//@   panics
+//@   assert before append: len(arg0) == 0 && cap(arg0) == 0 && sameSlice(arg1, c.conns)
+//@   assert before closeConn: arg0 == c
